@@ -45,8 +45,15 @@ logging.getLogger('pymap.sieve.manage').setLevel(logging.CRITICAL + 1)
 # than any block of a digest): wrong credentials that share a long prefix / suffix
 # with it are part of the "wrongpw" class
 _LONG = 'pass2-' + ''.join(chr(97 + (7 * i) % 26) + str(i % 10) for i in range(80))
-USERS = {'user1': 'pass1', 'user2': _LONG, 'adm': ('admpw', {'admin'})}
-MODEL_USER = {'u1': 'user1', 'u2': 'user2', 'adm': 'adm', 'ghost': 'ghost'}
+# the second ordinary user is a LOOK-ALIKE of the first: 'user' + FULLWIDTH DIGIT ONE is a different
+# account that SASLprep / NFKC / casefold map to 'user1' - a comparison of prepared names where
+# the raw ones are meant lets one act as the other
+U2 = 'user\uff11'
+USERS = {'user1': 'pass1', U2: _LONG, 'adm': ('admpw', {'admin'})}
+MODEL_USER = {'u1': 'user1', 'u2': U2, 'adm': 'adm', 'ghost': 'ghost'}
+# every user but the first had ANOTHER secret before, with which it logged in once: a stale
+# secret is one of the wrong passwords
+OLD_SECRET = {U2: 'old-' + _LONG[::-1], 'adm': 'old-admpw'}
 REAL_USER = {v: k for k, v in MODEL_USER.items()}
 NONE = '-'
 
@@ -182,7 +189,8 @@ def _plain_fields(cr: dict, rng):
                               password(c)[:len(password(c)) // 2],
                               password(c)[:-3] + 'zzz', 'x' + password(c)[1:],
                               password(c)[:64] + 'q' * max(1, len(password(c)) - 64),
-                              password(c)[:72] + 'tail', password(c) * 2])
+                              password(c)[:72] + 'tail', password(c) * 2]
+                           + ([OLD_SECRET[c]] * 3 if c in OLD_SECRET else []))
         return z, c, other
     if k == 'emptypw':
         return z, c, ''
@@ -257,11 +265,14 @@ def login_command(cr: dict, rng) -> bytes:
         return b'LOGIN user1 "' + b'p' * OVERSIZE + b'"'
     z, c, p = _plain_fields(cr, rng)
     style = rng.randrange(3)
-    if style == 0 or not c or not p:
+    c8, p8 = c.encode(), p.encode()
+    if not (c.isascii() and p.isascii()):
+        style = 2                # 8-bit octets travel in literals only
+    if (style == 0 or not c or not p) and c.isascii() and p.isascii():
         return b'LOGIN ' + _quoted(c) + b' ' + _quoted(p)
     if style == 1 and c.isalnum() and p.isalnum():
-        return b'LOGIN %s %s' % (c.encode(), p.encode())
-    return b'LOGIN {%d+}\r\n%s {%d+}\r\n%s' % (len(c), c.encode(), len(p), p.encode())
+        return b'LOGIN %s %s' % (c8, p8)
+    return b'LOGIN {%d+}\r\n%s {%d+}\r\n%s' % (len(c8), c8, len(p8), p8)
 
 
 # --------------------------------------------------------------------------
@@ -456,10 +467,47 @@ def provision(world: World) -> None:
         for user in world.users:
             mset = MailboxSet()
             fset = FilterSet()
-            await mset.add_mailbox('marker_' + user)
-            await fset.put('marker_' + user, b'keep;\r\n')
+            # the marker carries the MODEL name of the user (ASCII)
+            await mset.add_mailbox('marker_' + REAL_USER[user])
+            await fset.put('marker_' + REAL_USER[user], b'keep;\r\n')
             world.config.set_cache[user] = (mset, fset)
     world.loop.run_coro(build())
+    rotate_secrets(world)
+
+
+def rotate_secrets(world: World) -> None:
+    """history before every execution: each user of OLD_SECRET has that secret, logs in with it
+    once (IMAP LOGIN on a throw-away connection: OK), and only then gets its present secret."""
+    from pymap.backend.dict import Identity
+    from pymap.user import UserMetadata, Passwords
+
+    def set_secret(user, secret):
+        spec = world.users[user]
+        roles = spec[1] if isinstance(spec, tuple) else frozenset()
+
+        async def go():
+            pw = Passwords(world.config)
+            hashed = await pw.hash_password(secret)
+            ident = Identity(user, world.backend.login, None, {'admin'})
+            await ident.set(UserMetadata(world.config, user, password=hashed,
+                                         roles=frozenset(roles),
+                                         previous_entity_tag=UserMetadata.REPLACE_ANY))
+        world.loop.run_coro(go())
+
+    for n, (user, old) in enumerate(OLD_SECRET.items()):
+        if user not in world.users:
+            continue
+        set_secret(user, old)
+        name = f'warm{n}'
+        c = world.connect(name, local=True)
+        c.take()
+        u8, p8 = user.encode(), old.encode()
+        out = world.cmd(name, b'LOGIN {%d+}\r\n%s {%d+}\r\n%s' % (len(u8), u8, len(p8), p8))
+        if b' OK ' not in out:
+            raise RuntimeError(f'warm-up login of {user!r} failed: {out!r}')
+        c.eof()
+        world.run(name)
+        set_secret(user, password(user))
 
 
 def provision_mail(world: World) -> None:
@@ -760,7 +808,7 @@ def _name(v) -> str:
 
 def whose(names: list[str]) -> str:
     """Identity shown by a LIST of marker mailboxes / the demo mailboxes."""
-    owners = {REAL_USER.get(n[len('marker_'):], '?' + n) for n in names
+    owners = {(n[len('marker_'):] if n[len('marker_'):] in MODEL_USER else '?' + n) for n in names
               if n.startswith('marker_')}
     if len(owners) == 1:
         return owners.pop()
@@ -1114,7 +1162,7 @@ class SieveDriver:
         if cond == 'OK':
             names = [ln.split(b' ')[0].strip(b'"').decode('latin1') for ln in lines[:-1]]
             obs['auth'] = whose(names)
-            if owner is None or REAL_USER.get(owner.decode('latin1')) != obs['auth']:
+            if owner is None or REAL_USER.get(owner.decode('utf-8', 'replace')) != obs['auth']:
                 obs['probe_failed'] = f'OWNER {owner!r} but scripts of {obs["auth"]}'
             obs['mechs'] = None
         else:
